@@ -2,3 +2,4 @@ import Pw.Props.C02
 import Pw.Props.C17
 import Pw.Props.C20
 import Pw.Props.C10
+import Pw.Props.C03
